@@ -145,7 +145,7 @@ struct VfRun {
   int odd_links() const { int n = 0; for (int i = 0; i < sr.nlinks; i++) if (sr.ps.links[i]->len & 1) n++; return n; }
   void oracle_seek(Handle &H, const Rec &op, const std::string &kind, long ret, int64_t t0, int64_t t1, bool lap);
   void oracle_open(Handle &H, long ret);
-  void expected_int(const float *const *chan, int nch, int64_t off, int frames, int word, int sgned, int be, std::vector<uint8_t> &lo, std::vector<uint8_t> &hi);
+  void expected_int(const float *const *chan, int nch, int64_t off, int frames, int word, int sgned, int be, std::vector<uint8_t> &lo, std::vector<uint8_t> &hi, float gain = 1.f);
   void finish(Handle &H, bool twice);
   void lap_op(const Rec &op, const std::string &kind);
   void crosslap_op(const Rec &op);
@@ -187,7 +187,8 @@ long VfRun::read_int(Handle &H, const Rec &op, OpRes &r) {
   r.t0 = ov_pcm_tell(H.vf);
   bool filt = op.s("kind") == "read_filter";
   static int filter_calls; filter_calls = 0;
-  auto filter = +[](float **, long, long, void *p) { (*(int *)p)++; };
+  // a non-idempotent filter (gain 0.5, exact in binary floating point): whatever it is applied to twice, or not at all, shows in the bytes
+  auto filter = +[](float **pcm, long channels, long samples, void *p) { (*(int *)p)++; for (long c = 0; c < channels; c++) for (long i = 0; i < samples; i++) pcm[c][i] *= 0.5f; };
   r.ret = api(filt ? "ov_read_filter" : "ov_read", [&] { return filt ? ov_read_filter(H.vf, (char *)r.buf.data(), len, be, word, sg, &r.section, filter, &filter_calls) : ov_read(H.vf, (char *)r.buf.data(), len, be, word, sg, &r.section); });
   r.t1 = ov_pcm_tell(H.vf);
   if (r.ret > 0) h.bytes(r.buf.data(), (size_t)r.ret);
@@ -196,10 +197,10 @@ long VfRun::read_int(Handle &H, const Rec &op, OpRes &r) {
   return r.ret;
 }
 
-void VfRun::expected_int(const float *const *chan, int nch, int64_t off, int frames, int word, int sgned, int be, std::vector<uint8_t> &lo, std::vector<uint8_t> &hi) {
+void VfRun::expected_int(const float *const *chan, int nch, int64_t off, int frames, int word, int sgned, int be, std::vector<uint8_t> &lo, std::vector<uint8_t> &hi, float gain) {
   lo.clear(); hi.clear();
   for (int j = 0; j < frames; j++) for (int c = 0; c < nch; c++) {
-    double y = (double)chan[c][off + j] * (word == 1 ? 128.0 : 32768.0);
+    double y = (double)(chan[c][off + j] * gain) * (word == 1 ? 128.0 : 32768.0);
     double fl = floor(y); long a, b;
     if (y - fl == 0.5) { a = (long)fl; b = (long)fl + 1; } else { a = b = (long)floor(y + 0.5); }
     long mn = word == 1 ? -128 : -32768, mx = word == 1 ? 127 : 32767;
@@ -228,7 +229,7 @@ bool VfRun::read_explained_at(Handle &H, const OpRes &r, bool is_int, const Rec 
     int word = (int)op.i("word", 2), sg = (int)op.i("sgned", 1), be = (int)op.i("be", 0); if (word <= 0) return false;
     int frame = word * nch; if (r.ret % frame) return false; int frames = (int)(r.ret / frame); if (frames > avail) return false;
     std::vector<const float *> ch(nch); for (int c = 0; c < nch; c++) ch[c] = ref[c].data();
-    std::vector<uint8_t> lo, hi; expected_int(ch.data(), nch, off, frames, word, sg, be, lo, hi);
+    std::vector<uint8_t> lo, hi; expected_int(ch.data(), nch, off, frames, word, sg, be, lo, hi, op.s("kind") == "read_filter" ? 0.5f : 1.f);
     for (size_t i = 0; i < lo.size(); i += word) { bool a = !memcmp(&r.buf[i], &lo[i], word), b = !memcmp(&r.buf[i], &hi[i], word); if (!a && !b) return false; }
     return true;
   }
@@ -313,7 +314,7 @@ void VfRun::oracle_read(Handle &H, const OpRes &r, bool is_int, const Rec &op) {
     if (frames > avail) return;
     if (!skip_content) {
       auto &ref = refpcm(link, hr); std::vector<const float *> ch(nch); for (int c = 0; c < nch; c++) ch[c] = ref[c].data();
-      std::vector<uint8_t> lo, hi; expected_int(ch.data(), nch, off, frames, word, sg, be, lo, hi);
+      std::vector<uint8_t> lo, hi; expected_int(ch.data(), nch, off, frames, word, sg, be, lo, hi, op.s("kind") == "read_filter" ? 0.5f : 1.f);
       for (size_t i = 0; i < lo.size(); i++) if (r.buf[i] != lo[i] && r.buf[i] != hi[i]) {
         // a tie affects both bytes of a 16-bit word; re-check word-wise
         size_t w0 = word == 2 ? (i & ~(size_t)1) : i; bool okw = false;
